@@ -246,6 +246,22 @@ func before(rel, recv, fn, a, b string) string {
 	return "after"
 }
 
+// ascending: the fragments occur in the function body in exactly this order (first occurrences).
+func ascending(rel, recv, fn string, frags ...string) string {
+	last := -1
+	for _, f := range frags {
+		p := firstPos(rel, recv, fn, f)
+		if p < 0 {
+			return "MISSING:" + f
+		}
+		if p <= last {
+			return "OUT-OF-ORDER:" + f
+		}
+		last = p
+	}
+	return "ascending"
+}
+
 type fact struct {
 	Name  string `json:"name"`
 	Kind  string `json:"kind"`
@@ -367,6 +383,19 @@ func main() {
 	facts = append(facts, fact{"ord_commit_lock_ts", "op", before("txn.go", "Txn", "commitAndSend", "writeChLock.Lock()", "newCommitTs"), "txn.go:commitAndSend [writeChLock vs newCommitTs]"})
 	facts = append(facts, fact{"ord_commit_ts_send", "op", before("txn.go", "Txn", "commitAndSend", "newCommitTs", "sendToWriteCh"), "txn.go:commitAndSend [newCommitTs vs sendToWriteCh]"})
 	facts = append(facts, fact{"ord_commit_wait_done", "op", before("txn.go", "Txn", "commitAndSend", "req.Wait()", "orc.doneCommit(commitTs)\n\t\treturn err"), "txn.go:commitAndSend [req.Wait vs doneCommit]"})
+	// validation order of Txn.modify (C28: which error a rejected write gets) and the order of its effects
+	facts = append(facts, fact{"ord_modify_checks", "op", ascending("txn.go", "Txn", "modify",
+		"case !txn.update:", "case txn.discarded:", "case len(e.Key) == 0:", "case bytes.HasPrefix(e.Key, badgerPrefix):",
+		"case len(e.Key) > maxKeySize:", "case int64(len(e.Value)) > txn.db.opt.ValueLogFileSize:",
+		"case txn.db.opt.InMemory && int64(len(e.Value)) > txn.db.valueThreshold():",
+		"txn.db.isBanned(e.Key)", "txn.checkSize(e)", "txn.conflictKeys[fp] = struct{}{}",
+		"oldEntry.version != e.version", "txn.pendingWrites[string(e.Key)] = e"), "txn.go:Txn.modify [order of checks and effects]"})
+	// Txn.Get: pending write first, then read tracking, then the snapshot
+	facts = append(facts, fact{"ord_get_steps", "op", ascending("txn.go", "Txn", "Get",
+		"len(key) == 0", "txn.discarded", "txn.pendingWrites[string(key)]", "txn.addReadKey(key)", "txn.db.get(seek)"), "txn.go:Txn.Get [order of steps]"})
+	// Txn.Commit / commitPrecheck
+	facts = append(facts, fact{"ord_commit_steps", "op", ascending("txn.go", "Txn", "Commit",
+		"len(txn.pendingWrites) == 0", "txn.commitPrecheck()", "txn.commitAndSend()"), "txn.go:Txn.Commit [order of steps]"})
 	// manifest rewrite rule
 	addOp("op_manifest_rewrite_threshold", "manifest.go", "manifestFile", "addChanges", "Deletions", "deletionsRewriteThreshold")
 	// directory locks (C35): Open takes the second lock iff the absolute paths differ
